@@ -344,6 +344,8 @@ pub fn gen_recorder(rng: &mut Rng, cfg: &GenCfg) -> RecorderSpec {
         extras: Extras::default(),
         irregular: Irregular::default(),
         special_rate: *rng.pick(&[0u8, 3, 8]),
+        force_gecko: false,
+        raw_len_zero: false,
     }
 }
 
@@ -385,7 +387,7 @@ pub fn gen_stream(rng: &mut Rng, len: usize, allow_eintr: bool) -> StreamSpec {
         Frag::Random(m) if len > 200_000 && m < 8 => Frag::Random(64),
         m => m,
     };
-    StreamSpec {
+    let mut s = StreamSpec {
         mode,
         pseed: rng.next_u64(),
         eintr_calls: if allow_eintr { gen_eintr(rng, 400) } else { vec![] },
@@ -395,7 +397,13 @@ pub fn gen_stream(rng: &mut Rng, len: usize, allow_eintr: bool) -> StreamSpec {
         hard_error_offset: None,
         prefix: 0,
         suffix: 0,
+    };
+    // one stream in four is a member of something larger: it does not start at offset 0 and/or
+    // other bytes follow the closing brace
+    if rng.chance(1, 4) {
+        gen_embedding(rng, &mut s);
     }
+    s
 }
 
 /// Place the replay inside a larger stream: unrelated bytes before and/or after it.
